@@ -1,5 +1,7 @@
 #!/bin/bash
-# Runs every quick check against every seeded change under /verif/seeded (applied to /repo, reverted
+# [OWN=1] seedmatrix.sh [id-regex]
+# Runs every quick check (OWN=1: only the check of the change's own property, other entries are kept)
+# against every seeded change under /verif/seeded (applied to /repo, reverted
 # afterwards), records which checks catch which change in meta.json and seeded/README.md.
 cd /verif || exit 2
 git -C /repo diff --quiet || { echo "/repo has uncommitted changes"; exit 2; }
@@ -9,7 +11,8 @@ for d in seeded/*/; do
   [ -n "$1" ] && ! [[ "$id" =~ $1 ]] && continue
   git -C /repo apply "/verif/${d}patch.diff" || { echo "$id: patch does not apply"; continue; }
   caught=""
-  for c in $PROPS; do
+  own=${id%%-*}
+  for c in $( [ -n "$OWN" ] && echo "$own" || echo "$PROPS" ); do
     out=$(./bin/simcheck run "$c" --tier quick 2>&1); code=$?
     rules=$(echo "$out" | grep -oE "rule=[A-Za-z0-9.-]+" | sed 's/rule=//' | sort -u | tr '\n' ',' | sed 's/,$//')
     [ "$code" = 1 ] && caught="$caught $c:$rules"
@@ -20,7 +23,12 @@ for d in seeded/*/; do
   echo "$id =>$caught"
   python3 - "$d/meta.json" "$caught" <<'PY'
 import json,sys
-m=json.load(open(sys.argv[1])); m["caught_by"]=sys.argv[2].split(); json.dump(m,open(sys.argv[1],"w"),indent=1)
+import os
+m=json.load(open(sys.argv[1])); new=sys.argv[2].split()
+if os.environ.get("OWN"):
+    own=m["property"]+":"
+    new=new+[c for c in m.get("caught_by",[]) if not c.startswith(own)]
+m["caught_by"]=new; json.dump(m,open(sys.argv[1],"w"),indent=1)
 PY
 done
 python3 - <<'PY'
